@@ -146,11 +146,60 @@ PROPS = {
                         'which pooled connection carries the probe and the 1-second cadence are outside the model',
                         'fingerprint equality is treated as "same topology" (string formatting injective for addresses without # and ,)'],
     },
+    'C01': {
+        'props': 'Props/C01.v',
+        'suites': [{'name': 'loop', 'oracles': {'loop': 'o_loop'}, 'trivial_tags': ['plain'], 'vm_sample': 12, 'sigs': ['more-replies-than-requests', 'reply-does-not-belong-to-the-request-at-its-position', 'stray-bytes-after-the-last-reply', 'request-never-answered-and-connection-left-open', 'event-loop-stopped']}],
+        'rule': 'histories of 5-40 events (plus a quiescing tail) through the PRODUCTION event loop on socketpairs with a real poller and task queue: 1-3 clients, 2-3 backend nodes (layouts: full coverage / an unowned slot / an undialable node / two nodes; optional password handshake; optional 15 ms request timeout; optional 60-byte limit); clients send 1-3 requests per read (single-key, MGET/DEL/MSET over several slots, PING, unknown command, wrong arity, QUIT, keys that make the fake backend answer an error / MOVED to a known node / MOVED to an unknown node / ASK), sometimes cut inside a request; task rounds; backends answer 1-3 pending fragments, sometimes with the reply cut in two reads; client closes; backend closes; timeout scans after a real sleep. Nondeterminism of the Go code (map iteration order within one request, dial order) is recorded from the run and given to the model as oracle. distinct = distinct history; non-trivial = history contains at least one of the tagged situations (input_distribution shows how often each occurred)',
+        'explanation': 'Theorem C01_replies_in_order, by an invariant proved inductive over every event of the event-loop model (CInvG): for every history the bytes a client has received are the replies of its requests 0..k-1 in order, one each, nothing else. Three genuine defects repaired (local replies overtook queued ones; QUIT dropped outstanding replies; flush only when the whole queue was done). The model is tied to the production loop by replaying recorded histories; the session oracle checks every client stream against the expected reply of each request by position.',
+        'assumptions': ["backend replies are well-formed RESP2 and one per request written (wf_backend); a malformed or unsolicited backend reply makes the production loop spin (RHang in the model) - outside the property's environment", 'request objects are not reused in the model (after the repairs a late reply for a done fragment is dropped before the request is touched, so sync.Pool reuse is unobservable); the correspondence run exercises the real pool', 'sockets are append-only byte sinks in the model (partial writes / EPOLLOUT: property C19)'],
+    },
+    'C09': {
+        'props': 'Props/C09.v',
+        'suites': [{'name': 'loop', 'oracles': {'loop': 'o_loop'}, 'trivial_tags': ['plain'], 'vm_sample': 12, 'sigs': ['completed-reply-withheld-at-head-of-queue', 'event-loop-stopped']}],
+        'rule': 'histories of 5-40 events (plus a quiescing tail) through the PRODUCTION event loop on socketpairs with a real poller and task queue: 1-3 clients, 2-3 backend nodes (layouts: full coverage / an unowned slot / an undialable node / two nodes; optional password handshake; optional 15 ms request timeout; optional 60-byte limit); clients send 1-3 requests per read (single-key, MGET/DEL/MSET over several slots, PING, unknown command, wrong arity, QUIT, keys that make the fake backend answer an error / MOVED to a known node / MOVED to an unknown node / ASK), sometimes cut inside a request; task rounds; backends answer 1-3 pending fragments, sometimes with the reply cut in two reads; client closes; backend closes; timeout scans after a real sleep. Nondeterminism of the Go code (map iteration order within one request, dial order) is recorded from the run and given to the model as oracle. distinct = distinct history; non-trivial = history contains at least one of the tagged situations (input_distribution shows how often each occurred)',
+        'explanation': 'Theorem C09_no_completed_head: for every history and every open client, at the end of each event the head of the queue is not a completed request - a deliverable reply is written in the event that completed it. One genuine defect repaired (flush gated on the whole queue being done). The wall-clock bound (epoll latency) is runtime behaviour outside the model; the stepper snapshot exposes the done flag of every queue head after each event.',
+        'assumptions': ['as C01'],
+    },
+    'C13': {
+        'props': 'Props/C13.v',
+        'suites': [{'name': 'loop', 'oracles': {'loop': 'o_loop'}, 'trivial_tags': ['plain'], 'vm_sample': 12, 'sigs': ['ask-redirect-without-asking', 'redirect-error-leaked-to-client', 'event-loop-stopped']}],
+        'rule': 'histories of 5-40 events (plus a quiescing tail) through the PRODUCTION event loop on socketpairs with a real poller and task queue: 1-3 clients, 2-3 backend nodes (layouts: full coverage / an unowned slot / an undialable node / two nodes; optional password handshake; optional 15 ms request timeout; optional 60-byte limit); clients send 1-3 requests per read (single-key, MGET/DEL/MSET over several slots, PING, unknown command, wrong arity, QUIT, keys that make the fake backend answer an error / MOVED to a known node / MOVED to an unknown node / ASK), sometimes cut inside a request; task rounds; backends answer 1-3 pending fragments, sometimes with the reply cut in two reads; client closes; backend closes; timeout scans after a real sleep. Nondeterminism of the Go code (map iteration order within one request, dial order) is recorded from the run and given to the model as oracle. distinct = distinct history; non-trivial = history contains at least one of the tagged situations (input_distribution shows how often each occurred)',
+        'explanation': "Theorems: a MOVED/ASK reply for an open fragment naming a reachable node re-queues the fragment at the tail of that node's connection without touching any client or request; ordering/exactly-once by C01's theorem; every step is a total function. REFUTED for ASK (C13_ask_refuted): no ASKING precedes the re-sent request - recorded as known finding ask-redirect-without-asking. Late redirects for completed requests used to panic (repaired).",
+        'assumptions': ["redirect chains are finite when the cluster's redirects are consistent (no hop bound exists: A->B->A loops forever) - assumption consistent_redirects", 'as C01'],
+    },
+    'C16': {
+        'props': 'Props/C16.v',
+        'suites': [{'name': 'loop', 'oracles': {'loop': 'o_loop'}, 'trivial_tags': ['plain'], 'vm_sample': 12, 'sigs': ['reply-does-not-belong-to-the-request-at-its-position', 'request-never-answered-and-connection-left-open', 'more-replies-than-requests', 'event-loop-stopped']}],
+        'rule': 'histories of 5-40 events (plus a quiescing tail) through the PRODUCTION event loop on socketpairs with a real poller and task queue: 1-3 clients, 2-3 backend nodes (layouts: full coverage / an unowned slot / an undialable node / two nodes; optional password handshake; optional 15 ms request timeout; optional 60-byte limit); clients send 1-3 requests per read (single-key, MGET/DEL/MSET over several slots, PING, unknown command, wrong arity, QUIT, keys that make the fake backend answer an error / MOVED to a known node / MOVED to an unknown node / ASK), sometimes cut inside a request; task rounds; backends answer 1-3 pending fragments, sometimes with the reply cut in two reads; client closes; backend closes; timeout scans after a real sleep. Nondeterminism of the Go code (map iteration order within one request, dial order) is recorded from the run and given to the model as oracle. distinct = distinct history; non-trivial = history contains at least one of the tagged situations (input_distribution shows how often each occurred)',
+        'explanation': 'Theorems: after a timeout scan every expired fragment is done and every request that had an un-done expired fragment is completed with the timeout error as its reply (C16_timeout_completes); delivered once in position (C01 invariant); late replies are dropped without touching anything; the queue is not blocked (C09 clause holds after the scan). One genuine defect repaired (the request was never completed: error out of order, queue blocked forever).',
+        'assumptions': ['real time: the model has the scan as an event in which all in-flight fragments have expired; equal deadlines (LLRB replace-on-equal) and the fact that Polling runs the scan only after an epoll round with events are outside the model', 'as C01'],
+    },
 }
 
 NOT_YET = {}
 
 MANIFEST_TEXT = {
+    'C01': {
+        'text': 'Coq theorem over ALL event histories of the event-loop model (inductive invariant): client byte stream = replies of requests 0..k-1 in order. Model replayed against the production loop on recorded histories; session oracle per reply position.',
+        'note': 'Trusted: Coq kernel, extraction, Go harness + stepper hooks (core/verif_loop.go), the transcription in Model/Proxy.v (validated on every run against the production loop). Environment: well-formed backends.',
+        'technique': 'Coq proof (inductive invariant over event-loop steps) + differential correspondence through the real event loop',
+    },
+    'C09': {
+        'text': 'Coq theorem over ALL event histories: no open client has a completed request at the head of its queue at the end of an event. Snapshot of the real loop checked after every event.',
+        'note': 'Trusted: Coq kernel, extraction, Go harness + stepper hooks (core/verif_loop.go), the transcription in Model/Proxy.v (validated on every run against the production loop). Environment: well-formed backends.',
+        'technique': 'Coq proof (inductive invariant) + differential correspondence with queue snapshots',
+    },
+    'C13': {
+        'text': 'Coq theorems on the redirect step (re-queue at tail, nothing reaches the client) + C01 invariant; ASK part refuted by a computed witness and recorded as a known finding. MOVED/ASK/unknown-node histories through the real loop.',
+        'note': 'Trusted: Coq kernel, extraction, Go harness + stepper hooks (core/verif_loop.go), the transcription in Model/Proxy.v (validated on every run against the production loop). Environment: well-formed backends.',
+        'technique': 'Coq proof (step lemma + invariant; refutation by vm_compute witness) + differential correspondence',
+    },
+    'C16': {
+        'text': 'Coq theorems on the timeout scan (all expired requests completed with the timeout error, late replies dropped, queue not blocked) + C01 invariant for position. Real 15 ms timeouts with real sleeps through the production loop.',
+        'note': 'Trusted: Coq kernel, extraction, Go harness + stepper hooks (core/verif_loop.go), the transcription in Model/Proxy.v (validated on every run against the production loop). Environment: well-formed backends.',
+        'technique': 'Coq proof (induction over the expiry list + invariant) + differential correspondence with real timers',
+    },
+
     'C14': {
         'text': 'Coq theorems over the model of loopClusterNodes/parse/isChanged/setReplicaset/ticker: total loop for all histories, unusable replies are no-ops that never block later updates, node filter rules, '
                 'slot range, slot-table and replica-set characterisation, pools = adopted servers. Tied to the Go code by generated texts through ClusterNodes.parse and histories through the real refresh goroutine and ticker.',
